@@ -266,33 +266,40 @@ Section ScanProofs.
   Definition fin (f : bool) (n : nat) : nat := if f then n - 1 else n.
 
   Lemma csl_eol : forall fuel st d m ec w b, repb st d m -> m < fuel ->
-    exists st', consume_sequence_line rd cap fuel st true ec w b = (SOk, w, fin ec b, st').
+    exists st' m', consume_sequence_line rd cap fuel st true ec w b = (SOk, w, fin ec b, st')
+                   /\ repb st' d m' /\ m' <= m.
   Proof.
     induction fuel as [|fuel IH]; intros st d m ec w b HR Hf; [lia|].
     cbn [consume_sequence_line].
     pose proof (br_fill_buf_spec rd Rep Hsim cap Hcap st d m HR) as Hfb.
     destruct (br_fill_buf rd cap st) as [[src|] st1].
-    - destruct src; [|cbn [orb]]; exists st1; reflexivity.
-    - destruct Hfb as [m1 [Hm1 HR1]]. exact (IH st1 d m1 ec w b HR1 ltac:(lia)).
+    - destruct Hfb as [_ [_ [_ [m1 [Hm1 HR1]]]]].
+      destruct src; [|cbn [orb]]; exists st1, m1; (split; [reflexivity|split; [exact HR1|exact Hm1]]).
+    - destruct Hfb as [m1 [Hm1 HR1]].
+      destruct (IH st1 d m1 ec w b HR1 ltac:(lia)) as [st' [m' [E [HR' Hm']]]].
+      exists st', m'. split; [exact E|]. split; [exact HR'|lia].
   Qed.
 
   Lemma csl_loop : forall fuel st d m ec w b,
     repb st d m -> m + length d + 1 < fuel ->
     (w = 0 -> match d with x :: _ => N.eqb x GT = false | [] => True end) ->
-    exists st', consume_sequence_line rd cap fuel st false ec w b
+    exists st' m', consume_sequence_line rd cap fuel st false ec w b
                 = (SOk, w + length (take_line LF d),
-                   fin (flag ec (until_lf d)) (b + length (until_lf d)), st').
+                   fin (flag ec (until_lf d)) (b + length (until_lf d)), st')
+                /\ repb st' (skipn (length (take_line LF d)) d) m' /\ m' <= m.
   Proof.
     induction fuel as [|fuel IH]; intros st d m ec w b HR Hf Hgt; [lia|].
     cbn [consume_sequence_line].
     pose proof (br_fill_buf_spec rd Rep Hsim cap Hcap st d m HR) as Hfb.
     destruct (br_fill_buf rd cap st) as [[src|] st1].
-    2:{ destruct Hfb as [m1 [Hm1 HR1]]. exact (IH st1 d m1 ec w b HR1 ltac:(lia) Hgt). }
+    2:{ destruct Hfb as [m1 [Hm1 HR1]].
+        destruct (IH st1 d m1 ec w b HR1 ltac:(lia) Hgt) as [st' [m' [E [HR' Hm']]]].
+        exists st', m'. split; [exact E|]. split; [exact HR'|lia]. }
     destruct Hfb as [Hp [Hn [Hfst [m1 [Hm1 HR1]]]]].
     destruct src as [|x w'].
     - assert (d = []) by (destruct d; [reflexivity|exfalso; apply Hn; [discriminate|reflexivity]]).
-      subst d. exists st1. unfold csl_finish, fin, flag. cbn [take_line until_lf length].
-      rewrite !Nat.add_0_r. reflexivity.
+      subst d. exists st1, m1. unfold csl_finish, fin, flag. cbn [take_line until_lf length skipn].
+      rewrite !Nat.add_0_r. split; [reflexivity|]. split; [exact HR1|exact Hm1].
     - destruct (prefix_cons x w' d Hp) as [r Hdx].
       set (src := x :: w') in *.
       assert (Hchk : ((w =? 0) && N.eqb x GT) = false).
@@ -310,8 +317,8 @@ Section ScanProofs.
         assert (HR2 : repb (br_consume (Datatypes.S (length l)) st1) (skipn (Datatypes.S (length l)) d) m1)
           by (apply (consume_k st1 src); auto).
         destruct (csl_eol fuel _ _ m1 (match l with [] => ec | _ => last_cr l end)
-                    (w + Datatypes.S (length l)) (b + length l) HR2 ltac:(lia)) as [st' E].
-        exists st'. rewrite E.
+                    (w + Datatypes.S (length l)) (b + length l) HR2 ltac:(lia)) as [st' [m' [E [HR' Hm']]]].
+        exists st', m'. rewrite E.
         assert (Hdl : d = l ++ LF :: (skipn (Datatypes.S (length l)) src ++ skipn (length src) d)).
         { rewrite Hd at 1. rewrite Hs at 1. rewrite <- app_assoc. reflexivity. }
         assert (Htl : take_line LF d = l ++ [LF]).
@@ -321,16 +328,17 @@ Section ScanProofs.
         { rewrite Hdl. rewrite (until_lf_app l _ Hnl). cbn [until_lf]. rewrite N.eqb_refl.
           apply app_nil_r. }
         rewrite Htl, Hul, app_length. cbn [length]. unfold flag.
-        replace (length l + 1) with (Datatypes.S (length l)) by lia. reflexivity.
+        replace (length l + 1) with (Datatypes.S (length l)) by lia.
+        split; [reflexivity|]. split; [exact HR'|lia].
       + pose proof (until_lf_all src Hb) as Hall.
         set (rest := skipn (length src) d) in *.
         assert (HR2 : repb (br_consume (length src) st1) rest m1)
           by (apply (consume_k st1 src); auto).
-        destruct (IH _ rest m1 (last_cr src) (w + length src) (b + length src) HR2) as [st' E].
+        destruct (IH _ rest m1 (last_cr src) (w + length src) (b + length src) HR2) as [st' [m' [E [HR' Hm']]]].
         { assert (length d = length src + length rest) by (rewrite Hd at 1; apply app_length).
           unfold src in *. cbn [length] in *. lia. }
         { intros H0. unfold src in H0. cbn [length] in H0. lia. }
-        exists st'. rewrite E.
+        exists st', m'. rewrite E.
         assert (Htl : take_line LF d = src ++ take_line LF rest).
         { rewrite Hd at 1. apply has_byte_false_take_line. exact Hb. }
         assert (Hul : until_lf d = src ++ until_lf rest).
@@ -340,7 +348,11 @@ Section ScanProofs.
         { unfold flag. destruct (until_lf rest) as [|u us] eqn:Hu.
           - rewrite app_nil_r. reflexivity.
           - rewrite last_cr_app by discriminate. unfold src. reflexivity. }
-        rewrite Hfl. rewrite !Nat.add_assoc. reflexivity.
+        rewrite Hfl. rewrite !Nat.add_assoc. split; [reflexivity|].
+        split; [|lia].
+        replace (skipn (length src + length (take_line LF rest)) d)
+          with (skipn (length (take_line LF rest)) rest); [exact HR'|].
+        unfold rest. rewrite skipn_skipn_add. reflexivity.
   Qed.
 
   Lemma strip_cr_len : forall l, length (strip_cr l) = fin (last_cr l) (length l).
@@ -358,34 +370,52 @@ Section ScanProofs.
 
   (* one call at the beginning of a line: width of the raw line (including its LF), number of its
      bytes before the LF minus a final CR — for every delivery *)
+  (* one call at the beginning of a line: width of the raw line (including its LF), number of its
+     bytes before the LF minus a final CR — for every delivery; afterwards the reader represents
+     the data behind that line *)
+  Theorem consume_sequence_line_full_spec : forall fuel st d m,
+    repb st d m -> m + length d + 1 < fuel ->
+    exists st' m', consume_sequence_line rd cap fuel st false false 0 0
+                = (SOk, length (idx_line d), length (strip_cr (until_lf (idx_line d))), st')
+                /\ repb st' (skipn (length (idx_line d)) d) m' /\ m' <= m.
+  Proof.
+    intros fuel st d m HR Hf.
+    destruct d as [|x r].
+    - destruct (csl_loop fuel st [] m false 0 0 HR Hf (fun _ => I)) as [st' [m' [E [HR' Hm']]]].
+      exists st', m'. rewrite E. split; [reflexivity|]. split; [exact HR'|exact Hm'].
+    - destruct (N.eqb x GT) eqn:Hg.
+      + (* a definition line: nothing is consumed *)
+        unfold idx_line. rewrite Hg. cbn [until_lf strip_cr length skipn].
+        assert (forall f st0 m0, m0 < f -> repb st0 (x :: r) m0 ->
+                 exists st' m', consume_sequence_line rd cap f st0 false false 0 0 = (SOk, 0, 0, st')
+                                /\ repb st' (x :: r) m' /\ m' <= m0) as Hgen.
+        { induction f as [|f IHf]; intros st0 m0 Hm HR0; [lia|].
+          cbn [consume_sequence_line].
+          pose proof (br_fill_buf_spec rd Rep Hsim cap Hcap st0 (x :: r) m0 HR0) as Hfb.
+          destruct (br_fill_buf rd cap st0) as [[src|] st1].
+          - destruct Hfb as [Hp [Hn [_ [m1 [Hm1 HR1]]]]]. destruct src as [|y w'].
+            + exists st1, m1. split; [reflexivity|]. split; [exact HR1|exact Hm1].
+            + destruct (prefix_cons y w' _ Hp) as [r' Hd]. injection Hd as Hy _. subst y.
+              rewrite Hg. cbn [Nat.eqb andb orb]. exists st1, m1.
+              split; [reflexivity|]. split; [exact HR1|exact Hm1].
+          - destruct Hfb as [m1 [Hm1 HR1]].
+            destruct (IHf st1 m1 ltac:(lia) HR1) as [st' [m' [E [HR' Hm']]]].
+            exists st', m'. split; [exact E|]. split; [exact HR'|lia]. }
+        apply (Hgen fuel st m); [|exact HR]. lia.
+      + destruct (csl_loop fuel st (x :: r) m false 0 0 HR Hf (fun _ => Hg)) as [st' [m' [E [HR' Hm']]]].
+        exists st', m'. rewrite E. unfold idx_line. rewrite Hg.
+        rewrite until_lf_take_line. rewrite strip_cr_len.
+        cbn [Nat.add]. unfold flag.
+        split; [destruct (until_lf (x :: r)); reflexivity|]. split; [exact HR'|exact Hm'].
+  Qed.
+
   Theorem consume_sequence_line_spec : forall fuel st d m,
     repb st d m -> m + length d + 1 < fuel ->
     exists st', consume_sequence_line rd cap fuel st false false 0 0
                 = (SOk, length (idx_line d), length (strip_cr (until_lf (idx_line d))), st').
   Proof.
     intros fuel st d m HR Hf.
-    destruct d as [|x r].
-    - destruct (csl_loop fuel st [] m false 0 0 HR Hf (fun _ => I)) as [st' E].
-      exists st'. rewrite E. reflexivity.
-    - destruct (N.eqb x GT) eqn:Hg.
-      + (* a definition line: nothing is consumed *)
-        unfold idx_line. rewrite Hg. cbn [until_lf strip_cr length].
-        assert (forall f st0 m0, m0 < f -> repb st0 (x :: r) m0 ->
-                 exists st', consume_sequence_line rd cap f st0 false false 0 0 = (SOk, 0, 0, st')) as Hgen.
-        { induction f as [|f IHf]; intros st0 m0 Hm HR0; [lia|].
-          cbn [consume_sequence_line].
-          pose proof (br_fill_buf_spec rd Rep Hsim cap Hcap st0 (x :: r) m0 HR0) as Hfb.
-          destruct (br_fill_buf rd cap st0) as [[src|] st1].
-          - destruct Hfb as [Hp [Hn _]]. destruct src as [|y w'].
-            + exists st1. reflexivity.
-            + destruct (prefix_cons y w' _ Hp) as [r' Hd]. injection Hd as Hy _. subst y.
-              rewrite Hg. cbn [Nat.eqb andb orb]. exists st1. reflexivity.
-          - destruct Hfb as [m1 [Hm1 HR1]]. exact (IHf st1 m1 ltac:(lia) HR1). }
-        apply (Hgen fuel st m); [|exact HR]. lia.
-      + destruct (csl_loop fuel st (x :: r) m false 0 0 HR Hf (fun _ => Hg)) as [st' E].
-        exists st'. rewrite E. unfold idx_line. rewrite Hg.
-        rewrite until_lf_take_line. rewrite strip_cr_len.
-        cbn [Nat.add]. unfold flag.
-        destruct (until_lf (x :: r)); reflexivity.
+    destruct (consume_sequence_line_full_spec fuel st d m HR Hf) as [st' [m' [E _]]].
+    exists st'. exact E.
   Qed.
 End ScanProofs.
